@@ -789,7 +789,8 @@ static double get_free_energy(const double temperature, const double f,
     if (classical) {
         return KB * temperature * log(f / (KB * temperature));
     } else {
-        return KB * temperature * log(1 - exp(-f / (KB * temperature)));
+        /* log(1 - exp(-x)) by expm1 to be accurate for small x. */
+        return KB * temperature * log(-expm1(-f / (KB * temperature)));
     }
 }
 
@@ -797,13 +798,15 @@ static double get_entropy(const double temperature, const double f,
                           const int classical) {
     /* temperature is defined by T (K) */
     /* 'f' must be given in eV. */
-    double val;
+    /* S = kB [x / (exp(x) - 1) - log(1 - exp(-x))] with x = f / kB T, */
+    /* written with exp(-x) so that large x does not overflow. */
+    double val, val1;
     if (classical) {
         return KB - KB * log(f / (KB * temperature));
     } else {
-        val = f / (2 * KB * temperature);
-        return 1 / (2 * temperature) * f * cosh(val) / sinh(val) -
-               KB * log(2 * sinh(val));
+        val = f / (KB * temperature);
+        val1 = -expm1(-val);
+        return KB * (val * exp(-val) / val1 - log(val1));
     }
 }
 
@@ -811,15 +814,16 @@ static double get_heat_capacity(const double temperature, const double f,
                                 const int classical) {
     /* temperature is defined by T (K) */
     /* 'f' must be given in eV. */
-    /* If val is close to 1. Then expansion is used. */
+    /* C_V = kB [x exp(-x/2) / (1 - exp(-x))]^2 with x = f / kB T, */
+    /* written with exp(-x) so that large x does not overflow. */
     double val, val1, val2;
     if (classical) {
         return KB;
     } else {
         val = f / (KB * temperature);
-        val1 = exp(val);
-        val2 = (val) / (val1 - 1);
-        return KB * val1 * val2 * val2;
+        val1 = -expm1(-val);
+        val2 = val * exp(-val / 2) / val1;
+        return KB * val2 * val2;
     }
 }
 
